@@ -140,7 +140,8 @@ impl Number {
         if !exp.dimless() {
             return Err("Exponent must be dimensionless".to_string());
         }
-        if exp.value.abs() >= Numeric::from(1 << 31) {
+        // Written so that NaN, which compares false with everything, is refused as well.
+        if !(exp.value.abs() < Numeric::from(1 << 31)) {
             return Err("Exponent is too large".to_string());
         }
         let (num, den) = exp.value.to_rational();
@@ -170,7 +171,8 @@ impl Number {
         if !exp.dimless() {
             return Err("Right-hand to << must be dimensionless".to_string());
         }
-        if exp.value.abs() >= Numeric::from(1 << 31) {
+        // Written so that NaN, which compares false with everything, is refused as well.
+        if !(exp.value.abs() < Numeric::from(1 << 31)) {
             return Err("Right-hand to << is too large".to_string());
         }
         let (num, den) = exp.value.to_rational();
@@ -190,7 +192,8 @@ impl Number {
         if !exp.dimless() {
             return Err("Right-hand to >> must be dimensionless".to_string());
         }
-        if exp.value.abs() >= Numeric::from(1 << 31) {
+        // Written so that NaN, which compares false with everything, is refused as well.
+        if !(exp.value.abs() < Numeric::from(1 << 31)) {
             return Err("Right-hand to >> is too large".to_string());
         }
         let (num, den) = exp.value.to_rational();
